@@ -148,3 +148,34 @@ Proof.
       apply iso_relabel_pat_iff; auto.
 Qed.
 End Sym.
+
+(* ------------------------------------------------------------------ induced containment implies monomorphic containment *)
+Lemma emb_induced_mono nm em H P f : emb true nm em H P f -> emb false nm em H P f.
+Proof.
+  intros (E1 & E2 & E3). split; [exact E1|]. split; [exact E2|]. intros u v Iu Iv Hne. specialize (E3 u v Iu Iv Hne).
+  destruct (LGraph.adj P u v), (LGraph.adj H (f u) (f v)); auto.
+Qed.
+
+Section Mono.
+Variable vf2b : bool -> (attrs -> attrs -> bool) -> (attrs -> attrs -> bool) -> graph -> graph -> bool.
+Hypothesis VB : vf2b_contract vf2b.
+
+(** whenever an entry point answers True for check_type "induced" it answers True for every other check_type (same remaining options) *)
+Theorem entry_induced_implies_mono fn o ct child parent : gwf child -> gwf parent -> entry_ok fn o -> ct <> 0%N ->
+  sub_entry vf2b fn (set_ctype o 0%N) child parent = RB true -> sub_entry vf2b fn (set_ctype o ct) child parent = RB true.
+Proof.
+  intros WC WP Hok Hct A.
+  assert (Hok0 : entry_ok fn (set_ctype o 0%N)) by (destruct fn; exact Hok).
+  assert (Hok1 : entry_ok fn (set_ctype o ct)) by (destruct fn; exact Hok).
+  destruct (entry_spec vf2b VB fn (set_ctype o 0%N) child parent WC WP Hok0) as (b0 & E0 & S0).
+  destruct (entry_spec vf2b VB fn (set_ctype o ct) child parent WC WP Hok1) as (b1 & E1 & S1).
+  rewrite E1. f_equal. apply S1. rewrite E0 in A. inversion A; subst b0.
+  destruct (proj1 S0 eq_refl) as (f & He).
+  assert (I1 : o_induced (set_ctype o ct) = false) by (unfold o_induced; simpl; apply N.eqb_neq; exact Hct).
+  rewrite I1. exists f. apply emb_induced_mono.
+  replace (entry_nc fn (set_ctype o ct)) with (entry_nc fn (set_ctype o 0%N)) by (destruct fn; reflexivity).
+  replace (entry_ec fn (set_ctype o ct)) with (entry_ec fn (set_ctype o 0%N)) by (destruct fn; reflexivity).
+  replace (entry_em fn (set_ctype o ct)) with (entry_em fn (set_ctype o 0%N)) by (destruct fn; reflexivity).
+  exact He.
+Qed.
+End Mono.
